@@ -21,6 +21,7 @@ import (
 	"time"
 
 	"github.com/ipfs/go-cid"
+	"github.com/klauspost/compress/zstd"
 	"github.com/rpcpool/yellowstone-faithful/blocktimeindex"
 	"github.com/rpcpool/yellowstone-faithful/bucketteer"
 	"github.com/rpcpool/yellowstone-faithful/carreader"
@@ -53,6 +54,7 @@ type vfC12Target struct {
 	varints func(w *vfC12World, seed []byte) []int // offsets of length varints in a valid seed
 	fields  [][2]int                               // {offset, width} of little-endian integer header fields of the format
 	cidx    bool                                   // the input is a compact index file (header with key/value metadata)
+	llog    bool                                   // the input is an address-index log (records of zstd-compressed entry lists)
 	name    string
 	seeds   func(w *vfC12World) [][]byte
 	run     func(w *vfC12World, data []byte) (deep bool)
@@ -374,7 +376,7 @@ var vfC12Targets = []vfC12Target{
 		}
 		return true
 	}},
-	{name: "linkedlog", seeds: vfFileSeed("linkedlog"), varints: func(w *vfC12World, seed []byte) []int { return []int{0} }, run: func(w *vfC12World, d []byte) bool {
+	{name: "linkedlog", llog: true, seeds: vfFileSeed("linkedlog"), varints: func(w *vfC12World, seed []byte) []int { return []int{0} }, run: func(w *vfC12World, d []byte) bool {
 		p := filepath.Join(w.dir, fmt.Sprintf("ll-%d", time.Now().UnixNano()))
 		os.WriteFile(p, d, 0o644)
 		defer os.Remove(p)
@@ -513,6 +515,9 @@ var vfCborHeadBytes = []byte{0x00, 0x17, 0x18, 0x19, 0x1a, 0x1b, 0x20, 0x3b, 0x4
 func vfC12mutate(t *rapid.T, tg *vfC12Target, seed []byte) ([]byte, string) {
 	d := append([]byte{}, seed...)
 	how := rapid.SampledFrom([]string{"field", "field", "field2", "truncate", "cbor-head", "cbor-head", "flip", "random", "extend", "empty-or-tiny", "valid", "varint", "cbor-int", "cbor-len", "nudge", "nudge", "meta"}).Draw(t, "how")
+	if how == "meta" && tg.llog {
+		how = "ll-payload"
+	}
 	if how == "meta" && !tg.cidx {
 		how = "nudge"
 	}
@@ -661,6 +666,55 @@ func vfC12mutate(t *rapid.T, tg *vfC12Target, seed []byte) ([]byte, string) {
 			}
 			h.Metadata.KeyVals = kvs
 			d = append(h.Bytes(), d[oldLen:]...)
+		}
+	case "ll-payload":
+		// the first record of an address-index log with its *decompressed* payload (a list of uvarint triples)
+		// altered - a hostile or overlong varint, a flipped bit, a cut, extra bytes - and compressed again under a
+		// correct length prefix: corruption that survives the zstd layer
+		if plen, n := binary.Uvarint(d); n > 0 && plen >= 9 && uint64(n)+plen <= uint64(len(d)) {
+			comp := d[n : uint64(n)+plen-9]
+			next := d[uint64(n)+plen-9 : uint64(n)+plen]
+			if dec, err := zstd.NewReader(nil); err == nil {
+				raw, derr := dec.DecodeAll(comp, nil)
+				dec.Close()
+				if derr == nil {
+					at := 0
+					if len(raw) > 0 {
+						at = rapid.IntRange(0, len(raw)-1).Draw(t, "llAt")
+					}
+					switch rapid.IntRange(0, 5).Draw(t, "llOp") {
+					case 0, 1:
+						v := rapid.SampledFrom([][]byte{
+							{0xff, 0xff, 0xff, 0xff, 0xff, 0xff, 0xff, 0xff, 0xff, 0x01},       // 2^64-1
+							{0xff, 0xff, 0xff, 0xff, 0xff, 0xff, 0xff, 0xff, 0xff, 0x7f},       // overflows 64 bits
+							{0x80, 0x80, 0x80, 0x80, 0x80, 0x80, 0x80, 0x80, 0x80, 0x80, 0x01}, // 11 bytes
+							{0xff, 0xff, 0xff, 0xff, 0xff, 0xff, 0xff, 0xff, 0xff, 0xff, 0xff, 0xff},
+							{0x80}, {0x00}, {0xff, 0xff, 0xff, 0xff, 0x0f},
+						}).Draw(t, "llVarint")
+						raw = append(append(append([]byte{}, raw[:at]...), v...), raw[min(len(raw), at+1):]...)
+					case 2:
+						if len(raw) > 0 {
+							raw[at] ^= 1 << rapid.IntRange(0, 7).Draw(t, "llBit")
+						}
+					case 3:
+						raw = raw[:at]
+					case 4:
+						raw = append(raw, rapid.SliceOfN(rapid.Byte(), 1, 30).Draw(t, "llExtra")...)
+					case 5:
+						raw = rapid.SliceOfN(rapid.Byte(), 0, 60).Draw(t, "llRandom")
+					}
+					if enc, err := zstd.NewWriter(nil); err == nil {
+						comp2 := enc.EncodeAll(raw, nil)
+						enc.Close()
+						if rapid.IntRange(0, 3).Draw(t, "llKeepNext") == 0 {
+							next = make([]byte, 9)
+						}
+						rec := binary.AppendUvarint(nil, uint64(len(comp2))+9)
+						rec = append(append(rec, comp2...), next...)
+						d = append(rec, d[uint64(n)+plen:]...)
+					}
+				}
+			}
 		}
 	case "nudge":
 		// an integer of the input (a known header field of the format, or any aligned position) moved by a small
